@@ -276,17 +276,15 @@ def check_discipline(ctx, trace, ending, att, case):
 
 
 def check_asks(ctx, M, cfg, es, asks, case, site):
-    """The Interests the producer saw are exactly Spec.expected_asks (C19_interests_observed)."""
+    """The Interests the producer saw are exactly Spec.expected_asks (C19_interests_observed).  This is a
+    statement about the model's fetch strategy, finer than the property (a fetcher that, say, reused the
+    discovery answer for segment k would send fewer Interests and still satisfy C19), so a difference is
+    reported as a broken tie, not as a property violation; the property-level claims about Interests are
+    check_discipline and the parameter checks."""
     ea = norm(M([7, cfg, es]))
     ia = norm([enc_req(t[1]) for t in asks])
     if ia != ea:
-        if any(q not in ia for q in ea):
-            cls = 'interest-missing'
-        elif any(q not in ea for q in ia):
-            cls = 'interest-extra'
-        else:
-            cls = 'interest-count-or-order'
-        ctx.violation(site, cls, f'producer saw {len(ia)} Interests, specification lists {len(ea)}', case)
+        ctx.disagree(site + '.interests', f'producer saw {len(ia)} Interests, Spec.expected_asks lists {len(ea)}', case, ea, ia)
 
 
 # ---- generators ----------------------------------------------------------------------------------------
